@@ -103,6 +103,20 @@ def run(ctx, rep):
     rep.check(all(h == "Option::None()" or h.startswith("Option::Some(0=sym(") for h in hid) and hid, "R10.1-const", "R10.1|const|header_id",
               "header_id constructed as None or Some(configured version): %s" % sorted(hid), V)
 
+    # ---- R10.1c the validator that is actually built for each configuration (paths through new_from_config,
+    #      constructor/specialisation helpers inlined, writes replayed in order)
+    rows, problems = validator_configs(ctx)
+    for pr in problems:
+        rep.bad("R10.1", "R10.1|config|anchor", pr, V)
+    rep.floor("R10.1-config-paths", len(rows), 4, "paths through RdhCruSanityValidator::new_from_config")
+    bad = []
+    for conds, header, system in rows:
+        want = "Some(%s)" % hex(K["its_system_id"]) if conds.get("target") else "None"
+        if system != want:
+            bad.append("%s → system_id reference %s (expected %s)" % (conds, system, want))
+    rep.check(not bad and bool(rows), "R10.1", "R10.1|config|system_id", "with an ITS target the RDH0 validator requires system_id 0x20 in every configuration (custom checks or not); without a target it does not", V,
+              "the RDH0 validator built by new_from_config has the wrong system-id requirement for some configuration: %s" % bad)
+
     # ---- R10.1b predicate table
     self0 = Agg("Rdh0Validator", "Rdh0Validator", {
         "header_id": Sym("HEADER_ID_OPT"), "header_size": Bits.const(K["header_size"], 8),
@@ -316,3 +330,100 @@ def _check_detfield_warning(ctx, ev, rep):
             elif has_write:
                 n_err += 1
     rep.check(n_err == 3 and n_warn == 1, "R10.2", "R10.2|same_hbf|error_fields", "3 error fields + 1 warning field (%d/%d)" % (n_err, n_warn), p)
+
+
+# ------------------------------------------------------------------ validator per configuration (shared with C20)
+def validator_configs(ctx):
+    """Every acyclic path through RdhCruSanityValidator::new_from_config (local constructor/specialisation helpers
+    inlined) → the configuration tests taken and the final (header_id, system_id) reference of the RDH0 validator,
+    obtained by replaying the writes to that validator in path order.  Returns (rows, problems)."""
+    import re
+    import sys
+    from ..mir import inline_fn, Body, show_origin, callee_of
+    f = ctx.facts()
+    P = V + "RdhCruSanityValidator::<T>::new_from_config"
+    if P not in f.fns:
+        return [], ["anchor not found: %s" % P]
+    pref = (V + "RdhCruSanityValidator::<T>::", "<" + V + "RdhCruSanityValidator<T> as")
+    b = Body(inline_fn(f, P, lambda c: c.startswith(pref), max_depth=4))
+    rets = set(b.return_blocks())
+    problems = []
+
+    def opt(o):
+        s = show_origin(o)
+        if s == "core::option::Option{}":
+            return "None"
+        m = re.fullmatch(r"core::option::Option\{(.*)\}", s)
+        if m:
+            inner = m.group(1)
+            if "rdh_version(arg1)" in inner:
+                return "Some(rdh_version)"
+            return "Some(%s)" % inner
+        return s
+
+    events_at = {}
+    for x in b.live_blocks():
+        evs = []
+        for st in b.blocks[x]["s"]:
+            if st["k"] == "assign":
+                names = [e[2] for e in st["lhs"].get("p", []) if isinstance(e, list) and e[0] == "f" and len(e) > 2]
+                if names[-2:] == ["rdh0_validator", "system_id"] or names[-1:] == ["system_id"] and "rdh0_validator" in names:
+                    evs.append(("system_id", opt(b.origin(st["rv"]["op"])) if st["rv"]["k"] == "use" else "?"))
+                elif names[-2:] == ["rdh0_validator", "header_id"]:
+                    evs.append(("header_id", opt(b.origin(st["rv"]["op"])) if st["rv"]["k"] == "use" else "?"))
+        t = b.blocks[x]["t"]
+        if t["k"] == "call":
+            cal = callee_of(t)[0] or ""
+            if cal.endswith("rdh::Rdh0Validator::new"):
+                evs.append(("new", opt(b.origin(t["args"][0])), opt(b.origin(t["args"][4]))))
+            elif cal.endswith("Rdh0Validator as core::default::Default>::default"):
+                evs.append(("new", "None", "None"))
+        if evs:
+            events_at[x] = evs
+    rows = []
+    sys.setrecursionlimit(10000)
+
+    def walk(x, path, conds):
+        if len(rows) > 400:
+            return
+        if x in rets:
+            header = system = None
+            for y in path + [x]:
+                for e in events_at.get(y, []):
+                    if e[0] == "new":
+                        header, system = e[1], e[2]
+                    elif e[0] == "system_id":
+                        system = e[1]
+                    elif e[0] == "header_id":
+                        header = e[1]
+            rows.append((dict(conds), header, system))
+            return
+        t = b.blocks[x]["t"]
+        if t["k"] == "switch":
+            so = show_origin(b.origin(t["d"]))
+            label = None
+            if "custom_checks_enabled(arg1)" in so:
+                label = "custom"
+            elif so.startswith("discr(") and "::target(" in so and "@Some" not in so:
+                label = "target"
+            elif so.startswith("discr(") and "rdh_version(arg1)" in so:
+                label = "version"
+            edges = [(v[0], v[1]) for v in t["vals"]] + [("else", t["else"])]
+            for val, nxt in edges:
+                if nxt in path or nxt == x:
+                    continue
+                c2 = conds
+                if label:
+                    explicit = [v[0] for v in t["vals"]]
+                    truth = (val != 0) if val != "else" else (0 in explicit)
+                    c2 = conds + [(label, truth)]
+                walk(nxt, path + [x], c2)
+            return
+        for s_ in b.succ[x]:
+            if s_ not in path and s_ != x:
+                walk(s_, path + [x], conds)
+
+    walk(0, [], [])
+    if not rows:
+        problems.append("no path through new_from_config reaches a return")
+    return rows, problems
